@@ -70,8 +70,16 @@ def check_fresh(ctx, out, rule):
                         tops.add(x.parent)
             tops.add(vb.id)
 
+        # everything a spawned per-block task runs (its awaited futures and their helpers) is per block, as long as
+        # the call does not sit in a loop there
+        task_region = set()
+        for tb in asyncval.spawned_tasks(ctx, NAME):
+            task_region |= set(ctx.cg.reachable([tb.id]))
+
         def per_block(b, bi):
             if b.id == runner.id or (runner.parent and b.id == runner.parent):
+                return True
+            if b.id in task_region and b.id not in tops and not cfg_of(b).loops_containing(bi):
                 return True
             if b.id in tops:
                 # in the function that walks the blocks: only inside the per-block loop
@@ -269,10 +277,42 @@ def _unified(ctx, out, co, task):
         else:
             out.viol("C18.ctx", "C18.ctx|line", ctx.where(tv, by_key["line"][1]["span"]), "ctx.line derives from [%s]; expected the start tag's line" % util.origins_text(labs, 5))
     if "attrs" in by_key and dyn:
-        tbl = util.base_local(tv, by_key["attrs"][1]["args"][2])
+        def through_ok(op, depth=8):
+            """the local a value is, looked at through `Ok(x)` ... `?` of an inlined helper that returned it"""
+            for _ in range(depth):
+                pl = util.op_place(op)
+                if pl is None:
+                    return None
+                fields = [e for e in pl["p"] if isinstance(e, dict)]
+                d = tv.single_def(pl["l"])
+                if not fields:
+                    if d and d[0] == "stmt" and d[3]["rv"]["k"] in ("use", "cast") and util.op_place(d[3]["rv"]["op"]) is not None:
+                        op = d[3]["rv"]["op"]
+                        continue
+                    if d and d[0] == "stmt" and d[3]["rv"]["k"] == "ref":
+                        op = {"c": d[3]["rv"]["place"]}
+                        continue
+                    return pl["l"]
+                if d and d[0] == "call" and callee_matches(d[3], r"ops::Try>?::branch$") and d[3]["args"]:
+                    op = {"c": {"l": util.op_place(d[3]["args"][0])["l"], "p": []}} if util.op_place(d[3]["args"][0]) else None
+                    if op is None:
+                        return None
+                    d2 = tv.single_def(util.op_place(op)["l"])
+                    if d2 and d2[0] == "stmt" and d2[3]["rv"]["k"] == "agg" and d2[3]["rv"].get("variant") in ("Ok", "Some") and d2[3]["rv"]["ops"]:
+                        op = d2[3]["rv"]["ops"][0]
+                        continue
+                    return None
+                if d and d[0] == "stmt" and d[3]["rv"]["k"] == "agg" and d[3]["rv"].get("variant") in ("Ok", "Some") and d[3]["rv"]["ops"]:
+                    op = d[3]["rv"]["ops"][0]
+                    continue
+                return util.base_local(tv, op)
+            return None
+        tbl = through_ok(by_key["attrs"][1]["args"][2])
+        if tbl is None:
+            tbl = util.base_local(tv, by_key["attrs"][1]["args"][2])
         good = False
         for bi, t in dyn:
-            if util.base_local(tv, t["args"][0]) == tbl and tcfg.loops_containing(bi):
+            if (util.base_local(tv, t["args"][0]) == tbl or through_ok(t["args"][0]) == tbl) and tcfg.loops_containing(bi):
                 kl = ctx.prov.read_operand(tv, t["args"][1])
                 vl = ctx.prov.read_operand(tv, t["args"][2])
                 calls_k = sorted({l[1].split("::")[-1] for l in kl | vl if l[0] == "call" and not re.search(r"Iterator>?::next$|IntoIterator>?::into_iter$|HashMap::<K, V, S, A>::iter$|String::as_str$|Deref>?::deref$|AsRef<str>>::as_ref$|Index<.*>>?::index$", l[1])})
